@@ -536,12 +536,12 @@ class ImplicitLeapfrogIntegrator(Integrator):
         state.pos = self._solve_fixed_point(fixed_point_func, pos_init)
 
     def _step(self, state: ChainState, time_step: float) -> None:
-        self._step_a(state, time_step)
-        self._step_b_fwd(state, time_step)
-        self._step_c_fwd(state, time_step)
-        self._step_c_adj(state, time_step)
-        self._step_b_adj(state, time_step)
-        self._step_a(state, time_step)
+        self._step_a(state, 0.5 * time_step)
+        self._step_b_fwd(state, 0.5 * time_step)
+        self._step_c_fwd(state, 0.5 * time_step)
+        self._step_c_adj(state, 0.5 * time_step)
+        self._step_b_adj(state, 0.5 * time_step)
+        self._step_a(state, 0.5 * time_step)
 
 
 class ImplicitMidpointIntegrator(Integrator):
